@@ -236,8 +236,9 @@ pub(super) fn update_times_backward(est_times: &mut [EstTime]) {
         if !is_est_passed[idx_prev.idx()] {
             // If this is the second node, finish it and the first node and do not add them
             if est_times[idx_prev.idx()].idx_prev == EST_IDX_NA {
-                est_times[idx_prev.idx()].time_sched = est_times[idx_curr.idx()].time_sched;
-                est_times[EST_IDX_NA.idx()].time_sched = est_times[idx_curr.idx()].time_sched;
+                // The start nodes keep the departure time set by the forward pass: with several
+                // origins a slower origin branch can get here first, and its (earlier) latest
+                // start time is not the start of the shortest path.
                 is_est_passed[idx_prev.idx()] = true;
                 is_est_passed[EST_IDX_NA.idx()] = true;
             } else {
